@@ -40,8 +40,23 @@ EXEMPT = {
     ('_binary_helpers.sum', 'start'): "accumulates in place by design (documented); not a constraint method, "
                                       "conversion, solver or annealer",
 }
-OUT_PARAM_HELPERS = {'_pcbo._special_constraints_eq_zero': 'pcbo', '_pcbo._special_constraints_le_zero': 'pcbo',
-                     'PUBO._reduce_degree': 'D'}
+# private helpers: the out-parameter is identified by position (their parameter names are free to change)
+OUT_PARAM_POS = {'_pcbo._special_constraints_eq_zero': 0, '_pcbo._special_constraints_le_zero': 0,
+                 'PUBO._reduce_degree': 1}
+OUT_PARAM_HELPERS = {}
+EXEMPT_POS = {'_solve_bruteforce._solve_bruteforce': 0}
+
+
+def _resolve_tables(P):
+    OUT_PARAM_HELPERS.clear()
+    for q, i in OUT_PARAM_POS.items():
+        if P.has_func(q) and len(P.func(q).all_params) > i:
+            OUT_PARAM_HELPERS[q] = P.func(q).all_params[i]
+    for q, i in EXEMPT_POS.items():
+        if P.has_func(q) and len(P.func(q).all_params) > i:
+            old = [k for k in EXEMPT if k[0] == q]
+            for k in old:
+                EXEMPT[(q, P.func(q).all_params[i])] = EXEMPT.pop(k)
 GETTERS = [('BO', 'mapping', '_mapping'), ('BO', 'reverse_mapping', '_reverse_mapping'),
            ('PUBOMatrix', 'variables', '_variables')]
 
@@ -107,6 +122,7 @@ def offset_pairing(ctx, rid):
 
 def rules(ctx):
     P, R = ctx.prog, ctx.res
+    _resolve_tables(P)
     E = Effects(P, R)
     E.build()
     ctx.rule('R19.1', "no exported function / non-mutator method mutates an argument or its receiver", floor=150)
